@@ -26,6 +26,12 @@ part E  class hierarchies X, Y, Z in which a subclass or sibling RE-DECLARES the
         none); one case = one ORDER in which the three classes are round-tripped in the same process
         (all 6 orders) x level per step {class, instance, inst->class} x api per step -- every step must
         round-trip, whatever was (de)serialized before it (fresh classes per case);
+parts F, G, H  (bounded/c15_ext.py) F: Selector / ObjectSelector / ListSelector over a DICT of objects whose
+        values are labels of other entries (all permutations of 2-4 labels, int / None / float values colliding
+        with labels) x level x api, and under subset=; G: the SAME text deserialized three times with in-place
+        mutation of the earlier results / of the objects rebuilt from them (every container-valued state, class
+        and instance level, default equal to / different from the state, both apis, subset=); H: parameters of
+        different types whose states serialize to the same text, round-tripped one after the other;
 part D  (thorough; a seed-chosen slice in quick) pseudo-random floats, ints, strings, datetimes,
         dates and date ranges -- this also tests the assumed codecs (json float repr,
         strftime/strptime for the two literal formats).
@@ -47,7 +53,10 @@ import random
 import struct
 import warnings
 
+import sys
+
 from bounded._api import Bounded, REPLAY_HEADER
+from bounded import c15_ext
 
 # --------------------------------------------------------------------------------------------
 # The checking core.  It is kept as source text: the layer exec()s it and every replay script
@@ -343,7 +352,8 @@ def class_src(decls):
     return "class C15Case(param.Parameterized):\n" + body + "\n"
 
 
-REPLAY_BODY = '''import warnings, logging
+REPLAY_BODY = '''import os, warnings, logging
+sys.path.insert(0, os.environ.get('PYVC_REPO', '/repo'))
 warnings.simplefilter('ignore')
 logging.disable(logging.CRITICAL)
 {core}
@@ -439,7 +449,8 @@ def e_shrink(src, vals, steps, kind):
     return steps
 
 
-REPLAY_E = '''import warnings, logging
+REPLAY_E = '''import os, warnings, logging
+sys.path.insert(0, os.environ.get('PYVC_REPO', '/repo'))
 warnings.simplefilter('ignore')
 logging.disable(logging.CRITICAL)
 {core}
@@ -531,6 +542,12 @@ def _run(tier, seed):
                "x 17x17 subset pairs (+ tuple/set forms); all-types class x rotated lattice x 3 levels x 2 "
                "apis; 14 re-declaration pairs (7 type pairs, both directions) x 4 hierarchy shapes of 3 classes x "
                "all 6 orders of round-tripping the classes x (level, api) per step; "
+               "dict-of-objects selectors whose values are labels of other entries (permutations of 2-4 labels, "
+               "partial / int / mixed collisions; Selector values, ListSelector ordered sub-lists) x 3 levels x 2 "
+               "apis + subset pairs; the same text deserialized 3 times with in-place mutation of earlier results "
+               "(2 modes) over every container-valued lattice state + pseudo-random nested JSON x 5 level/default "
+               "combinations x 2 apis + subset pairs; 22 same-text parameters of different types x 44 orders x 3 "
+               "levels; "
                "pseudo-random values per type: %s") % ("1500 each (all)" if tier == "thorough"
                                                             else "a seed-chosen slice of 40 of 1500 each"))
     reported = {}      # (clause, type, vclass, kind) -> canonical witness
@@ -762,6 +779,11 @@ def _run(tier, seed):
         for tname, vals in pool.items():
             k = (seed % 37) * 40
             part_a(tname, vals[k:k + 40], [""], "D")
+
+    # ---------------------------------------------------------------- parts F, G, H (bounded/c15_ext.py)
+    # (last: they change deserialized results in place, which must not disturb the parts above when the
+    # library under test wrongly shares them)
+    c15_ext.run_ext(B, tier, seed, sys.modules[__name__])
 
     # notes are de-duplicated
     B.notes = sorted(set(B.notes))
